@@ -133,7 +133,7 @@ def build(spec, warm=None):
             base = touch(fmtstr(text))
             part = fmtstr(base, **atts)
             if (c >> 4) % 48 == 1:
-                touch_interrupted(part, 1 + (c >> 8) % 36)
+                touch_interrupted(part, 1 + (c >> 8) % 18)        # a one-run value's first str() is ~15 statements
             touch(part)
         else:
             part = fmtstr(text, **atts)
@@ -145,8 +145,10 @@ def build(spec, warm=None):
         else:
             f = f + part
             if warm:
-                if (c >> 6) % 24 == 1:
-                    touch_interrupted(f, 1 + (c >> 12) % 48)     # first use of the fresh value
+                if (c >> 6) % 16 == 1:
+                    # first use of the fresh value, interrupted somewhere inside it: its first
+                    # str() runs roughly 6 + 10 statements per run
+                    touch_interrupted(f, 1 + (c >> 12) % (8 + 10 * (i + 1)))
                 touch(f)
     if isinstance(f, str):
         f = fmtstr(f)
